@@ -163,6 +163,58 @@ class ConditionParseCache(Contract):
 
 
 @register
+class ConditionParseAfterRewrite(Contract):
+    """a condition object whose text was rewritten after an earlier parse (pipelines rewrite conditions in place; validators parse before
+    the pipeline runs) parses its CURRENT text: nothing of the earlier parse is kept on the object"""
+    id = "C15.SigmaCondition.parse[after rewrite]"
+    target = "sigma.conditions:SigmaCondition.parse"
+    props = ("C15", "C19", "C12")
+    cases = (True, False)
+    assumed = ["the grammar is external: the tree of a text is one identifier leaf carrying that text"]
+
+    def setup(self, E):
+        idx = E.index
+
+        def s_cached(I, so, a, k):
+            return SObj(idx.lookup("sigma.conditions:ConditionIdentifier"), {"args": [I.force(a[0])]})
+        E.summaries["sigma.conditions:_parse_condition_string"] = s_cached
+        for cname in ("ConditionItem", "ConditionIdentifier", "ConditionSelector"):
+            E.summaries[f"sigma.conditions:{cname}.postprocess"] = lambda I, so, a, k: so
+
+    def args(self, I, case):
+        me = SObj(I.E.index.lookup("sigma.conditions:SigmaCondition"), {"condition": "before", "detections": I.fresh("detections", "opaque", "Detections"), "source": None}, lazy=True)
+        return {"self": me, "args": [case], "case": case}
+
+    def before(self, I, inp):
+        me = inp["self"]
+        I.call_function(I.E.index.lookup(self.target), me, [False], {})       # e.g. a validator looks at the condition
+        me.fields["condition"] = "c and (before)"                             # e.g. add_condition rewrites it
+
+    def post(self, I, inp, r):
+        ok = isinstance(r, SObj) and isinstance(r.fields.get("args"), list) and len(r.fields["args"]) == 1
+        I.ctx.require(ok, "returns a tree")
+        if ok:
+            I.ctx.require(r.fields["args"][0] == "c and (before)", f"the tree is the parse of the current condition text (got the parse of {r.fields['args'][0]!r})")
+
+    def frame_ok(self, I, inp, obj, name):
+        return True       # what the object may cache is not restricted - only what a later parse returns
+
+    def replay(self, values):
+        from sigma.rule import SigmaRule
+        from sigma.backends.test import TextQueryTestBackend
+        from sigma.processing.pipeline import ProcessingPipeline
+        from sigma.validation import SigmaValidator
+        from sigma.validators.core import validators
+        mk = lambda: SigmaRule.from_yaml("title: t\nlogsource:\n  category: c\ndetection:\n  sel:\n    a: 1\n  condition: sel\n")
+        pl = lambda: ProcessingPipeline.from_dict({"name": "p", "priority": 10, "transformations": [{"type": "add_condition", "conditions": {"idx": "main"}}]})
+        fresh = TextQueryTestBackend(pl()).convert_rule(mk())
+        r = mk()
+        SigmaValidator([validators["dangling_detection"], validators["dangling_condition"]]).validate_rules(iter([r]))
+        after = TextQueryTestBackend(pl()).convert_rule(r)
+        return None if fresh == after else f"a rule converts to {fresh}, the same rule validated first converts to {after}"
+
+
+@register
 class FinishQueryFrame(Contract):
     """TextQueryBackend.finish_query gives the query template a VIEW of the conversion state (pipeline state over backend defaults) and
     changes neither: the backend's state_defaults (one dict per class, shared by every rule and every instance) and the rule's
